@@ -15,18 +15,19 @@
 (* down to the (method, bucket, key) the storage layer receives.           *)
 (*                                                                         *)
 (* A key is a sequence of wire tokens (how it is written in the request    *)
-(* target): c plain character, sl "/", e2f "%2F", e25 "%25", sp "%20",     *)
-(* u a percent-encoded two-byte UTF-8 character.  Decode gives the key's   *)
-(* characters.  The harness (harness/cmd/vhost) concretises tokens and     *)
-(* bucket classes and maps observed keys back to character symbols.        *)
+(* target): c plain character, sl "/", e2f "%2F", e2fl "%2f", e25 "%25",   *)
+(* sp "%20", u a percent-encoded two-byte UTF-8 character, plus "+".       *)
+(* Decode gives the key's characters.  The harness (harness/cmd/vhost)     *)
+(* concretises tokens and bucket classes and maps observed keys back to    *)
+(* character symbols.                                                      *)
 (* The case sets are in VHostGen.tla, the trace binding in VHostTrace.tla. *)
 (***************************************************************************)
 EXTENDS Naturals, Sequences, FiniteSets, TLC
 
 CONSTANT Deviations      \* set of deviation tags the code is known to have
 
-KeySyms   == {"c", "sl", "e2f", "e25", "sp", "u"}
-KeyChars  == {"c", "sl", "pct", "sp", "u"}
+KeySyms   == {"c", "sl", "e2f", "e2fl", "e25", "sp", "u", "plus"}
+KeyChars  == {"c", "sl", "pct", "sp", "u", "plus"}
 Buckets   == {"plain", "hyphen", "dotted"}
 Methods   == {"GET", "HEAD", "PUT", "DELETE", "POST"}      \* POST is POST ?uploads
 HostForms == {"bare", "port"}
@@ -42,8 +43,9 @@ ReadOnlyOps == {"ListBuckets", "HeadBucket", "GetBucketWebsiteConfiguration", "G
                 "HeadObject", "GetObject", "ListMultipartUploads", "ListParts"}
 
 \* ------------------------------------------------------------------ model
-CharOf(s) == CASE s = "c" -> "c" [] s \in {"sl", "e2f", "SEP"} -> "sl" [] s = "e25" -> "pct"
-               [] s = "sp" -> "sp" [] s = "u" -> "u"
+EscSlash == {"e2f", "e2fl"}
+CharOf(s) == CASE s = "c" -> "c" [] s \in {"sl", "SEP"} \cup EscSlash -> "sl" [] s = "e25" -> "pct"
+               [] s = "sp" -> "sp" [] s = "u" -> "u" [] s = "plus" -> "plus"
 Decode(key) == [i \in 1..Len(key) |-> CharOf(key[i])]
 
 \* What the router sees of the key: ServeMux matches URL.EscapedPath().  While
@@ -52,7 +54,7 @@ Decode(key) == [i \in 1..Len(key) |-> CharOf(key[i])]
 \* rewritten without URL.RawPath the escaped path is recomputed from the decoded
 \* path and every "/" of the key is a separator.
 MuxView(key, rawKept) ==
-  [i \in 1..Len(key) |-> IF key[i] = "sl" \/ (key[i] = "e2f" /\ ~rawKept) THEN "SEP" ELSE key[i]]
+  [i \in 1..Len(key) |-> IF key[i] = "sl" \/ (key[i] \in EscSlash /\ ~rawKept) THEN "SEP" ELSE key[i]]
 
 BucketOp(m) == CASE m = "GET" -> "ListObjects" [] m = "HEAD" -> "HeadBucket" [] m = "PUT" -> "CreateBucket"
                  [] m = "DELETE" -> "DeleteBucket" [] m = "POST" -> "none"
@@ -82,7 +84,7 @@ VHostWith(c, devs) ==
   LET full == <<"SEP">> \o MuxView(c.key, "D-C33-escaped-slash" \notin devs)
       last == full[Len(full)]
       T    == IF c.key = <<>> THEN <<>>
-              ELSE IF "D-C33-trailing-slash" \in devs /\ last \in {"SEP", "e2f"}
+              ELSE IF "D-C33-trailing-slash" \in devs /\ last \in {"SEP"} \cup EscSlash
                    THEN SubSeq(full, 1, Len(full) - 1)
                    ELSE full
   IN Route(c.bucket, c.method, T)
